@@ -23,6 +23,12 @@ package scen
 // The host's addresses change between operations (with or without the
 // address-update event); a provide advertises what the host has when it runs.
 //
+// frt-local-provider ("Provide with announce records the local node as
+// provider", for every network and address set): after every FullRT.Provide
+// that returned - with an error or not, with an empty crawled table, without a
+// single host address - the provider manager lists the local peer for the key
+// (c06.go checkLocalProvider).
+//
 // Value search (GetValue / SearchValue through FullRT): "after a completed
 // value search the peers among the closest that did not return the best value
 // are sent it while peers that did are not". FullRT asks its GetClosestPeers
@@ -68,6 +74,7 @@ func init() {
 		Stub: []string{"host.Host/network (simhost)", "pb.MessageSender (level A, simnet.Sender behind a recording wrapper)", "crawler (stub: reports a drawn set of peers as reachable)", "remote peers (scripted)", "datastore (simds, recording)", "validator (harness rank validator)"},
 		Faults: []string{"fault_recipient_fail", "fault_recipient_hang", "fault_recipient_slow", "fault_recipient_bad_echo", "time_advance",
 			"probe_fullrt_put_ok", "probe_fullrt_provide_ok", "probe_fullrt_op_failed", "probe_fullrt_inflight_at_return", "probe_fullrt_empty_table", "probe_fullrt_no_addrs",
+			"probe_local_provider_judged", "probe_local_provider_judged_no_addrs", "probe_local_provider_judged_op_failed", "probe_fullrt_local_provider_judged_empty_R",
 			"probe_recipient_failed_others_served", "probe_recipient_hung_others_served",
 			"probe_recipient_failed_while_others_inflight", "probe_addrs_changed_with_event", "probe_addrs_changed_silently", "probe_provide_after_addr_change",
 			"fault_rpc_error", "fault_invalid_record", "fault_wrong_key_record", "probe_fullrt_search_completed", "probe_fullrt_search_no_value", "probe_fullrt_best_changed",
@@ -286,11 +293,20 @@ func runC06FullRT(s *sim.Sim) {
 			// FullRT has no address filter: it advertises the host's addresses
 			// (those it had while this provide ran)
 			msgs, good := w.checkProvideContent(ob, sum, addrs)
-			if !good || !ok0 || !ok1 || !sameSet(R0, R1) {
-				continue
-			}
-			if !w.checkLocalProvider(sum, frt.ProviderManager.GetProviders) {
+			if !good {
 				return
+			}
+			// "records the local node as provider": judged after every Provide
+			// that returned, whatever it returned and whatever GetClosestPeers
+			// says (empty table, no address to advertise, every recipient failed)
+			if !w.checkLocalProvider("frt", ob, sum, len(addrs), frt.ProviderManager.GetProviders) {
+				return
+			}
+			if ok0 && len(R0) == 0 {
+				s.Count("probe_fullrt_local_provider_judged_empty_R")
+			}
+			if !ok0 || !ok1 || !sameSet(R0, R1) {
+				continue
 			}
 			if len(addrs) > 0 {
 				w.checkFullRTRecipients("FullRT.Provide", msgs, R0)
